@@ -309,6 +309,8 @@ def gen_op(spec, rng, codec, fs, s, m, cls, oid, client):
         call["timeout"] = rng.choice([7.0, 33.0, 1.5, None])
     if rng.random() < 0.2:
         call["metadata"] = [["x-caller-tag", f"tag-{oid}"]]
+        if rng.random() < 0.4:
+            call["metadata_form"] = "tuple"
     op = {"id": oid, "kind": "paged", "service": s["name"], "method": m["name"],
           "form": rng.choice(["msg", "msg", "dict"]), "request": gen_request(rng, spec, m, codec), "call": call}
     if cls is None:
